@@ -25,6 +25,8 @@ CONSTANTS MaxSteps, MaxIno,
           FIX_REPOINT,       \* D2/D3 repaired: the old kernel watch is released, a stale path key is dropped
           OPS,               \* Add may ask for a narrow operation set (withOps: nothing that ends the watch - no IN_MOVE_SELF / IN_DELETE_SELF)
           MASK_ADD,          \* the code: a re-Add of a listed path passes IN_MASK_ADD, the kernel adds to the mask instead of replacing it
+          MAXQ,              \* 0: the kernel queue is unbounded; n > 0: at most n records are pending, further ones are dropped
+                             \* (fs.inotify.max_queued_events; the overflow marker itself is not modelled here - see InotifySched)
           ALIAS_OPS          \* a narrow Add may also be made under another name of a watched file (no IN_MASK_ADD there: the mask is replaced)
 
 Paths == {"A", "B", "H", "L", "M"}
@@ -56,6 +58,8 @@ Resolve(p) == IF p = "L" THEN name[ltgt] ELSE name[p]
 WdOfIno(i) == {m.wd : m \in {m \in marks : m.ino = i}}
 PathWd(p) == {r.wd : r \in {r \in pathTab : r.path = p}}
 WdPath(wd) == {r.path : r \in {r \in wdTab : r.wd = wd}}
+\* the kernel queues records unless the queue is full
+Q(q, rs) == IF MAXQ = 0 \/ Len(q) + Len(rs) <= MAXQ THEN q \o rs ELSE SubSeq(q \o rs, 1, IF Len(q) > MAXQ THEN Len(q) ELSE MAXQ)
 WdFl(wd) == \E r \in wdTab : r.wd = wd /\ r.fl
 EndOf(i) == \E m \in marks : m.ino = i /\ m.end
 Without(f, S) == [x \in (DOMAIN f) \ S |-> f[x]]
@@ -86,7 +90,7 @@ Add(p, all) ==
          marks1  == (IF newMark THEN marks \cup {[wd |-> kwd, ino |-> i, end |-> flEnd]}
                      ELSE {IF m.wd = kwd THEN [m EXCEPT !.end = IF maskAdd THEN @ \/ flEnd ELSE flEnd] ELSE m : m \in marks})
      IN /\ marks' = IF release THEN {m \in marks1 : m.wd # oldwd} ELSE marks1
-        /\ kq' = IF release /\ \E m \in marks1 : m.wd = oldwd THEN Append(kq, [wd |-> oldwd, kind |-> "ignored"]) ELSE kq
+        /\ kq' = IF release /\ \E m \in marks1 : m.wd = oldwd THEN Q(kq, <<[wd |-> oldwd, kind |-> "ignored"]>>) ELSE kq
         /\ nextWd' = IF newMark THEN nextWd + 1 ELSE nextWd
         \* updatePath: w.wd[upd.wd] = upd; w.path[upd.path] = upd.wd; if upd.wd != wd { delete(w.wd, wd) [; fix: delete(w.path, path) if another path's entry] }
         \* (the recorded flags are refreshed only when a row is written: the early return for a known wd leaves them as they were)
@@ -114,7 +118,7 @@ Remove(p) ==
           ELSE /\ pathTab' = {r \in pathTab : r.path # p}
                /\ wdTab' = {r \in wdTab : r.wd # wd}
                /\ marks' = {m \in marks : m.wd # wd}
-               /\ kq' = IF \E m \in marks : m.wd = wd THEN Append(kq, [wd |-> wd, kind |-> "ignored"]) ELSE kq
+               /\ kq' = IF \E m \in marks : m.wd = wd THEN Q(kq, <<[wd |-> wd, kind |-> "ignored"]>>) ELSE kq
                /\ panic' = panic /\ wantEnd' = wantEnd \ {p}
                /\ uw' = Without(uw, {p})
   /\ UNCHANGED <<name, ltgt, alive, nextIno, nextWd, away>>
@@ -134,7 +138,7 @@ Unlink(p) ==
      /\ IF last THEN /\ alive' = alive \ {i}
                      /\ marks' = {m \in marks : m.ino # i}
                      /\ kq' = IF ws = {} THEN kq ELSE LET w == CHOOSE w \in ws : TRUE IN
-                                kq \o (IF EndOf(i) THEN <<[wd |-> w, kind |-> "delself"]>> ELSE <<>>) \o <<[wd |-> w, kind |-> "ignored"]>>
+                                Q(kq, (IF EndOf(i) THEN <<[wd |-> w, kind |-> "delself"]>> ELSE <<>>) \o <<[wd |-> w, kind |-> "ignored"]>>)
                      /\ uw' = uw             \* the ideal follows when the record is processed (see Drain invariant)
                 ELSE UNCHANGED <<alive, marks, kq, uw>>
   /\ UNCHANGED <<ltgt, nextIno, nextWd, wdTab, pathTab, panic, wantEnd, away>>
@@ -144,7 +148,7 @@ MoveAway(p) ==
   /\ LET i == name[p]
          ws == WdOfIno(i) IN
      /\ name' = [name EXCEPT ![p] = NoIno]
-     /\ kq' = IF ws = {} \/ ~EndOf(i) THEN kq ELSE Append(kq, [wd |-> CHOOSE w \in ws : TRUE, kind |-> "moveself"])
+     /\ kq' = IF ws = {} \/ ~EndOf(i) THEN kq ELSE Q(kq, <<[wd |-> CHOOSE w \in ws : TRUE, kind |-> "moveself"]>>)
      /\ away' = away \cup {i}
   /\ UNCHANGED <<ltgt, alive, nextIno, marks, nextWd, wdTab, pathTab, panic, uw, wantEnd>>
 \* create a new file under a free name
@@ -168,7 +172,7 @@ Handle ==
                        /\ pathTab' = {x \in pathTab : x.path # q}
                        /\ wdTab' = {x \in wdTab : x.wd # wd}
                        /\ marks' = {m \in marks : m.wd # wd}
-                       /\ kq' = IF \E m \in marks : m.wd = wd THEN Append(Tail(kq), [wd |-> wd, kind |-> "ignored"]) ELSE Tail(kq)
+                       /\ kq' = IF \E m \in marks : m.wd = wd THEN Q(Tail(kq), <<[wd |-> wd, kind |-> "ignored"]>>) ELSE Tail(kq)
                        \* the ideal: the watch on q ends, unless q was re-added for another file in the meantime
                        /\ uw' = IF q \in DOMAIN uw /\ \E m \in marks : m.wd = r.wd /\ m.ino = uw[q] THEN Without(uw, {q}) ELSE uw
              ELSE                                                            \* w.watches.remove(watch): delete(w.path, watch.path); delete(w.wd, watch.wd)
